@@ -31,18 +31,67 @@ def check_c20(A: Analysis, col: Collector):
     col.scope(bt.qualname)
     fields = [c for c in A.calls(bt) if "attrs.field" in A.callee_names(c, bt)]
     A.anchor("attrs.field(...) in build_task_class", fields)
+    def _through_local(v, fn):
+        """a keyword value given through a local bound exactly once is that binding's value"""
+        if isinstance(v, ast.Name):
+            defs = [d for k, d in A.rs.local_defs(fn).get(v.id, []) if k == "assign"]
+            if len(defs) == 1 and isinstance(defs[0], ast.AST):
+                return defs[0]
+        return v
+
+    def _setattr_converts(v, fn, depth=0) -> tuple[bool, str]:
+        """does this on_setattr value store the converted value on assignment?"""
+        v = _through_local(v, fn)
+        if v is None:
+            return False, "no on_setattr"
+        if norm(v) in ("attrs.setters.convert", "setters.convert"):
+            return True, ""
+        if isinstance(v, ast.IfExp):
+            for br in (v.body, v.orelse):
+                ok_, why_ = _setattr_converts(br, fn, depth)
+                if not ok_:
+                    return False, why_
+            return True, ""
+        if isinstance(v, (ast.List, ast.Tuple)) or (isinstance(v, ast.Call) and norm(v.func).endswith("setters.pipe")):
+            elts = v.elts if isinstance(v, (ast.List, ast.Tuple)) else v.args
+            if any(_setattr_converts(e, fn, depth)[0] for e in elts):
+                return True, ""
+            return False, f"`{norm(v, 40)}` does not contain attrs.setters.convert"
+        if isinstance(v, ast.Name) and depth < 2:
+            g = fn.module.functions.get(v.id) if hasattr(fn.module, "functions") else None
+            if g is None:
+                g = A.repo.functions.get(f"{fn.module.name}.{v.id}")
+            if g is not None:
+                conv_calls = [c_ for c_ in A.calls(g) if norm(c_.func) in ("attrs.setters.convert", "setters.convert")]
+                if not conv_calls:
+                    return False, f"{g.name} never calls attrs.setters.convert"
+                # the converted value must be what is returned (directly, or handed on to the next setter)
+                conv_vars = set()
+                for st in walk_own(g.node):
+                    if isinstance(st, ast.Assign) and st.value in conv_calls:
+                        conv_vars |= {t.id for t in st.targets if isinstance(t, ast.Name)}
+                for r in walk_own(g.node):
+                    if isinstance(r, ast.Return):
+                        names = {k.id for k in ast.walk(r.value)} if False else {k.id for k in ast.walk(r.value) if isinstance(k, ast.Name)} if r.value is not None else set()
+                        direct = r.value is not None and any(k in conv_calls for k in ast.walk(r.value))
+                        if not direct and not (names & conv_vars):
+                            return False, f"{g.name} discards the result of attrs.setters.convert (`{norm(r, 60)}` returns the value as it was assigned): the unconverted value is stored"
+                return True, ""
+        return False, f"on_setattr=`{norm(v, 40)}` is not attrs.setters.convert"
+
     for c in fields:
-        conv = kwarg(c, "converter")
+        conv = _through_local(kwarg(c, "converter"), bt)
         on = kwarg(c, "on_setattr")
         if isinstance(conv, ast.Call) and any(q.endswith("make_converter") for q in A.callee_names(conv, bt)):
             col.ok("C20.wiring", "task input field: converter=make_converter(arg, ...)", A.loc(c))
         else:
             col.fail("C20.wiring", bt.qualname, f"input-converter:{norm(conv, 30)}", f"a task input attrs.field is created with converter=`{norm(conv, 40)}` instead of make_converter(...): values are stored without type checking/coercion", A.loc(c))
-        if on is not None and norm(on) == "attrs.setters.convert":
-            col.ok("C20.wiring", "task input field: on_setattr=attrs.setters.convert (assignment-time rejection)", A.loc(c))
+        on_ok, on_why = _setattr_converts(on, bt)
+        if on_ok:
+            col.ok("C20.wiring", f"task input field: on_setattr=`{norm(on, 50)}` stores the converted value (assignment-time conversion / rejection)", A.loc(c))
         else:
-            col.fail("C20.wiring", bt.qualname, f"on_setattr:{norm(on, 30)}", "task input fields are no longer converted on assignment: an uncoercible value assigned after construction is rejected only when the task runs (or never)", A.loc(c))
-        val = kwarg(c, "validator")
+            col.fail("C20.wiring", bt.qualname, f"on_setattr:{shape(on, 30) if on is not None else None}", f"task input fields are no longer converted on assignment ({on_why}): an uncoercible value assigned after construction is rejected only when the task runs (or never), a coercible one is stored with the wrong type", A.loc(c))
+        val = _through_local(kwarg(c, "validator"), bt)
         if isinstance(val, ast.Call) and any(q.endswith("make_validator") for q in A.callee_names(val, bt)):
             col.ok("C20.wiring", "task input field: validator=make_validator(arg, ...) (allowed_values)", A.loc(c))
         else:
